@@ -67,6 +67,9 @@ Definition py_lt (x y : pynum) : option bool :=
 Definition py_le (x y : pynum) : option bool :=
   match qof x, qof y with Some a, Some b => Some (Qleb a b) | _, _ => None end.
 Definition py_ge (x y : pynum) : option bool := py_le y x.
+(* Python  not x < y *)
+Definition py_not_lt (x y : pynum) : option bool :=
+  match py_lt x y with Some b => Some (negb b) | None => None end.
 
 (* Python chained  lo <= v <= hi  with float bounds: None = raises TypeError *)
 Definition py_between (lo hi : Q) (v : pynum) : option bool :=
